@@ -266,7 +266,17 @@ class LoopMixin:
         return outs
 
     def for_getitem(self, st, it, s, spec):
-        raise Unsupported('iteration through __getitem__/__len__ needs a loop invariant handler', s)
+        """iteration of a repository Sequence class (collections.abc.Sequence mix-in __iter__: indices 0,1,.. until
+        IndexError) whose __getitem__/__len__ delegate to a private list: same as iterating that list"""
+        deleg = self.sequence_delegate(it.cls)
+        if deleg is None:
+            raise Unsupported(f'iteration over {it.cls.name}: __getitem__/__len__ do not delegate to a private list', s)
+        if spec is None:
+            raise Unsupported(f'loop #{self.loop_ordinal(s)} in {self.loop_owner.qualname} needs a loop invariant', s)
+        lst = self.hload(st, r_of(it.term), deleg)
+        st.assume(AND(is_ref(lst), z3.Select(st.CL, r_of(lst)) == I(self.cls('list').id)))
+        self.assumptions_used.add(f'{it.cls.name}.{deleg} holds a list (class invariant)')
+        return self.for_seq(st, self.list_seq(st, r_of(lst)), s, spec, None)
 
     # ------------------------------------------------------------------ while
     def while_inv(self, st: St, s: ast.While, spec):
